@@ -75,7 +75,12 @@ def main():
                         'pytest (94 passed)',
                         'demo.py: PASS pristine / FAIL changed',
                         'dtverif check (all claimed properties)'],
-                'detected_by': sorted(res['detected_by']),
+                'detected_by': sorted(k for k, v in
+                                      res['detected_by'].items()
+                                      if v['rc'] == 1),
+                'analysis_error_in': sorted(k for k, v in
+                                            res['detected_by'].items()
+                                            if v['rc'] != 1),
                 'detail': res['detected_by']}
         json.dump(meta, open(f'{dst}/meta.json', 'w'), indent=1)
     return 0
